@@ -133,7 +133,7 @@ def native_dist(d):
     items = list(d.items())
     if len(items) == 1 and items[0][1] == 1.0:
         return DeterministicDistribution(items[0][0])
-    if len(items) in (2, 4, 8) and all(p == 1.0 / len(items) for _, p in items):
+    if len(items) >= 2 and all(p == 1.0 / len(items) for _, p in items):
         return UniformDistribution([e for e, _ in items])
     return d
 
